@@ -154,7 +154,7 @@ func clientCase(seed uint64, idx int) *CaseSpec {
 			go func() { c.Close(); close(done) }()
 			select {
 			case <-done:
-			case <-time.After(2 * time.Second):
+			case <-time.After(wd(2 * time.Second)):
 			}
 		}()
 		st := stub.last()
@@ -239,7 +239,7 @@ func clientCase(seed uint64, idx int) *CaseSpec {
 				go func() { c.Q(req); close(qdone) }()
 				select {
 				case <-qdone:
-				case <-time.After(3 * time.Second):
+				case <-time.After(wd(3 * time.Second)):
 					t.Add("hang")
 					dead = true
 					continue
@@ -375,7 +375,7 @@ func clientCase(seed uint64, idx int) *CaseSpec {
 		var aerr error
 		select {
 		case aerr = <-errc:
-		case <-time.After(3 * time.Second):
+		case <-time.After(wd(3 * time.Second)):
 			acancel()
 			t.Add("hang")
 			t.Add("end")
@@ -464,7 +464,7 @@ func clientRaceCase(seed uint64, idx int) *CaseSpec {
 		rparts = append(rparts, fmt.Sprintf("%d:3", n+777))
 		errc := make(chan error, 1)
 		go func() {
-			actx, acancel := context.WithTimeout(context.Background(), 3*time.Second)
+			actx, acancel := context.WithTimeout(context.Background(), wd(3*time.Second))
 			defer acancel()
 			errc <- c.AwaitConverged(actx)
 		}()
@@ -473,7 +473,7 @@ func clientRaceCase(seed uint64, idx int) *CaseSpec {
 		var aerr error
 		select {
 		case aerr = <-errc:
-		case <-time.After(5 * time.Second):
+		case <-time.After(wd(5 * time.Second)):
 			t.Add("hang")
 			t.Add("end")
 			return t, nil
